@@ -99,7 +99,9 @@ def struct_eq(a, b, depth=0):
         return ops.And(*[struct_eq(a.d[k], b.d[k], depth + 1) for k in a.d]) if a.d else True
     if isinstance(a, Splice) and isinstance(b, Splice):
         return a.seq is b.seq or a.name == b.name
-    if isinstance(a, Model) and isinstance(b, Model):
+    if isinstance(a, Model) or isinstance(b, Model):
+        if type(a) is not type(b):
+            return False
         if hasattr(a, "struct_eq"):
             return a.struct_eq(b)
         return a is b
